@@ -143,6 +143,13 @@ StreamedCases ==
                     <<36, 63, 13, 10, 59, 45, 49, 13, 10>>, <<42, 63, 13, 10, 46, 13, 10, 46, 13, 10>>}},
       \* a well-formed command whose arguments are streamed strings: GET a
       {[raw |-> <<42, 50, 13, 10, 36, 63, 13, 10, 59, 51, 13, 10, 71, 69, 84, 13, 10, 59, 48, 13, 10, 36, 63, 13, 10, 59, 49, 13, 10, 97, 13, 10, 59, 48, 13, 10>>, reply |-> FALSE, known |-> "none"]} }
+\* a slow or fragmenting client: well-formed commands that arrive in two segments with a pause - the first command of a
+\* connection cut at every offset; a complete PING followed by a GET cut at every offset (the pending piece of the
+\* second command lies behind bytes that were already consumed); every one of them must be answered
+PingA == <<42, 49, 13, 10, 36, 52, 13, 10, 80, 73, 78, 71, 13, 10>>
+SlowCases == {[raw |-> GetA, reply |-> TRUE, known |-> "none", cut |-> n, replies |-> 1] : n \in 1..(Len(GetA) - 1)}
+             \cup {[raw |-> PingA \o GetA, reply |-> TRUE, known |-> "none", cut |-> n, replies |-> 2] : n \in 1..(Len(PingA) + Len(GetA) - 1)}
+ASSUME PrintT(ToJson([rawcases |-> SlowCases]))
 ASSUME PrintT(ToJson([rawcases |-> {[raw |-> rc.raw, reply |-> rc.reply, known |-> IF rc.known \in OpenDev THEN rc.known ELSE "none"] : rc \in RawCases \cup StreamedCases}]))
 
 VARIABLES hc, ht
